@@ -27,6 +27,7 @@ def run(rep: core.Report):
     _r12g(rep)
     _r12h(rep)
     _r12i(rep)
+    _r12j(rep)
     # R12a -------------------------------------------------------------
     fn = core.find_def(GV, "GroupVelocity._calculate_group_velocity_at_q")
     lam, fac = sp.Symbol("lam", positive=True), sp.Symbol("factor", positive=True)
@@ -284,6 +285,44 @@ def _r12i(rep):
                      f"the tolerance that groups bands into degenerate sets is {bad}, a value the caller chooses to switch off group velocities of low-frequency modes: with a cutoff of 0.5 THz every chain of bands closer than 0.5 THz is re-diagonalised together and the reported velocities of those (non-degenerate) modes are no longer the gradients of their frequencies", line=c.lineno)
 
 
+
+def _r12j(rep):
+    """The Grueneisen mesh is reduced only by operations shared by all three crystals."""
+    AG = "phonopy/api_gruneisen.py"
+    rep.rule("R12j", "symmetry of the Grueneisen mesh: the rotations handed to GruneisenMesh come from a strained crystal (the plus or minus Phonopy object), whose point group is contained in that of the reference for an applied strain; the reference crystal's own (possibly larger) group would merge q-points at which D(V+) - D(V-) differs, so reduced and full meshes would disagree", 1)
+    fn = core.find_def(AG, "PhonopyGruneisen.set_mesh")
+    calls = [c for c in ast.walk(fn) if isinstance(c, ast.Call) and core.src(c.func).split(".")[-1] == "GruneisenMesh"]
+    if len(calls) != 1:
+        raise AnalysisError("PhonopyGruneisen.set_mesh: the GruneisenMesh construction vanished")
+    rot = [k.value for k in calls[0].keywords if k.arg == "rotations"]
+    if not rot:
+        raise AnalysisError("PhonopyGruneisen.set_mesh: GruneisenMesh is built without rotations")
+
+    def roots(e, depth=0):
+        """the self._phonon* attributes an expression is read from; a name left over from a loop over a literal tuple is
+        its last element"""
+        out = set()
+        for x in ast.walk(e):
+            if isinstance(x, ast.Attribute) and core.src(x).startswith("self._phonon") and core.src(x.value) == "self":
+                out.add(core.src(x))
+            elif isinstance(x, ast.Name) and depth < 5:
+                asg = [st for st in ast.walk(fn) if isinstance(st, ast.Assign) and len(st.targets) == 1 and isinstance(st.targets[0], ast.Name) and st.targets[0].id == x.id]
+                loops = [lp for lp in ast.walk(fn) if isinstance(lp, ast.For) and isinstance(lp.target, ast.Name) and lp.target.id == x.id]
+                if len(asg) == 1 and not loops:
+                    out |= roots(asg[0].value, depth + 1)
+                elif len(loops) == 1 and not asg:
+                    it = core.resolve_name(fn, loops[0].iter)
+                    if isinstance(it, (ast.Tuple, ast.List)) and it.elts and not any(isinstance(b, ast.Break) for b in ast.walk(loops[0])):
+                        out |= roots(it.elts[-1], depth + 1)
+        return out
+
+    got = roots(rot[0])
+    if not got:
+        raise AnalysisError(f"PhonopyGruneisen.set_mesh: cannot tell which crystal the rotations '{core.src(rot[0])}' come from")
+    rep.instance("R12j", AG, "PhonopyGruneisen.set_mesh", f"rotations from {sorted(got)}", got <= {"self._phonon_plus", "self._phonon_minus"},
+                 f"the mesh is reduced with the point group of {sorted(got)}: for strained cells of lower symmetry than the reference (strain along one axis) q-points that are equivalent only in the reference are merged, and the Grueneisen parameters on the reduced mesh differ from those on the full mesh", line=calls[0].lineno)
+
+
 def _r12g(rep):
     """Wang NAC term of the derivative kernel: dnac[i,j,a,b] = factor (v.Z_i)_a (v.Z_j)_b / (v.eps.v) / sqrt(m_i m_j) with
     v = reclat q (or the direction), and ddnac[n,i,j,a,b] is its derivative with respect to v_n (sympy differentiates
@@ -522,4 +561,5 @@ def selftest():
     b("degenerate set placed one band too far", GV, "            gv[pos : pos + len(deg)] = self._perturb_D(ddms, eigvecs[:, deg])", "            gv[pos + 1 : pos + 1 + len(deg)] = self._perturb_D(ddms, eigvecs[:, deg])", "R12h", "_calculate_group_velocity_at_q")
     b("degeneracy tolerance taken from the velocity cutoff", GV, "        deg_sets = degenerate_sets(freqs)", "        deg_sets = degenerate_sets(freqs, cutoff=self._cutoff_frequency)", "R12i", "degenerate_sets")
     n("degeneracy tolerance given as a literal", GV, "        deg_sets = degenerate_sets(freqs)", "        deg_sets = degenerate_sets(freqs, cutoff=1e-4)")
+    b("Grueneisen mesh reduced with the reference crystal's point group", "phonopy/api_gruneisen.py", "        symmetry = phonon.primitive_symmetry", "        symmetry = self._phonon.primitive_symmetry", "R12j", "rotations")
     return V
